@@ -16,6 +16,7 @@ from pams.index_market import IndexMarket
 from pams.logs.base import (CancelLog, ExecutionLog, ExpirationLog, Logger, MarketStepBeginLog,
                             MarketStepEndLog, OrderLog, SessionBeginLog, SessionEndLog,
                             SimulationBeginLog, SimulationEndLog)
+from pams.logs.market_step_loggers import MarketStepPrintLogger, MarketStepSaver
 from pams.market import Market
 from pams.order import LIMIT_ORDER, MARKET_ORDER, Cancel, Order
 from pams.runners.sequential import SequentialRunner
@@ -421,7 +422,7 @@ def log_key(l):
     return ("other", type(l).__name__)
 
 
-class RecLogger(Logger):
+class _RecLoggerMixin:
     def write(self, log):
         REC.add("log.write", log_key(log), id(log))
         super().write(log)
@@ -476,6 +477,25 @@ class RecLogger(Logger):
 
     def process_market_step_end_log(self, log):
         self._deliver(log)
+        import contextlib
+        import io
+        with contextlib.redirect_stdout(io.StringIO()):
+            super().process_market_step_end_log(log)      # what the built-in logger class does with it
+
+
+class RecLogger(_RecLoggerMixin, Logger):
+    pass
+
+
+class RecSaver(_RecLoggerMixin, MarketStepSaver):
+    """the recording logger on top of pams' own MarketStepSaver (the subclassing pattern of the examples)"""
+
+
+class RecPrinter(_RecLoggerMixin, MarketStepPrintLogger):
+    pass
+
+
+LOGGER_CLASSES = [RecLogger, RecSaver, RecPrinter]
 
 
 # --------------------------------------------------------------------------------------------
@@ -564,7 +584,7 @@ class SimRun:
         self.rec = REC
         cfg = copy.deepcopy(self.config)
         self.cfg_copy = copy.deepcopy(cfg)
-        logger = RecLogger()
+        logger = LOGGER_CLASSES[self.seed % 3]()      # every built-in logger class, by seed
         fc = self.fundamental_class
 
         class _Sim(ProbeSimulator):
